@@ -149,6 +149,9 @@ pub fn disarm_attempt_cap() {
 /// library mprotect calls whose page range covers this address fail (0 = off): "the OS refuses to make THIS
 /// page writable", whatever the order and granularity in which the library asks
 pub static FAIL_MPROTECT_PAGE: AtomicUsize = AtomicUsize::new(0);
+/// library mprotect calls asking for exactly this protection fail (-1 = off): an execmem / W^X policy that lets
+/// pages be made writable but refuses to make (or re-make) them executable, or the other way round
+pub static FAIL_MPROTECT_PROT: AtomicI64 = AtomicI64::new(-1);
 
 pub fn arm_fail_range(kind: usize, from: i64, to: i64) {
     PLAN_IDX[kind].store(0, Ordering::SeqCst);
@@ -172,6 +175,7 @@ pub fn disarm_all() {
         DELAY_NS[k].store(0, Ordering::SeqCst);
     }
     FAIL_MPROTECT_PAGE.store(0, Ordering::SeqCst);
+    FAIL_MPROTECT_PROT.store(-1, Ordering::SeqCst);
 }
 pub fn plan_calls(kind: usize) -> i64 {
     PLAN_IDX[kind].load(Ordering::SeqCst)
@@ -574,7 +578,8 @@ pub unsafe extern "C" fn mprotect(addr: *mut libc::c_void, len: libc::size_t, pr
         maybe_delay(K_MPROTECT);
         let fp = FAIL_MPROTECT_PAGE.load(Ordering::SeqCst);
         let covers = fp != 0 && (addr as usize & !4095) <= fp && fp < ((addr as usize + len + 4095) & !4095);
-        if should_fail(K_MPROTECT) || covers {
+        let by_prot = FAIL_MPROTECT_PROT.load(Ordering::SeqCst) == prot as i64;
+        if should_fail(K_MPROTECT) || covers || by_prot {
             N_INJECTED.fetch_add(1, Ordering::Relaxed);
             e.injected = 1;
             e.res = -1;
